@@ -3,7 +3,8 @@
    IDiff.diff_entry), proofs in Proofs/IdxCheckoutProofs.v (maps, classification, no_delete,
    errors_reported), IdxCheckoutConverge.v (deletion phases, induction along the depth-sorted list),
    IdxCheckoutPhases.v (pointwise specifications of makedirs folds, create_files for the three link
-   types, chmod), IdxCheckoutFinal.v (assembly: converges, fixpoint).
+   types, chmod), IdxCheckoutFinal.v (assembly: converges, fixpoint), IdxCheckoutHistory.v (one round preserves
+   prefix closure; histories of rounds).
 
    Deviations from DESIGN.md section 6 (forced by the behaviour of the code as it is, reproduced on
    the implementation by harness/props/c09.py):
@@ -15,7 +16,7 @@
    * the proof does not go "through C08_refines": the model uses the flat union of keys directly
      (C08's statement, exercised by the correspondence on every run). *)
 From Coq Require Import NArith List Bool.
-From DvcData Require Import Base.Val Base.PyBase Gen.PyTypes Gen.IDiff Model.IdxCheckout Proofs.IdxCheckoutProofs Proofs.IdxCheckoutConverge Proofs.IdxCheckoutPhases Proofs.IdxCheckoutFinal.
+From DvcData Require Import Base.Val Base.PyBase Gen.PyTypes Gen.IDiff Model.IdxCheckout Proofs.IdxCheckoutProofs Proofs.IdxCheckoutConverge Proofs.IdxCheckoutPhases Proofs.IdxCheckoutFinal Proofs.IdxCheckoutHistory.
 Import ListNotations.
 Open Scope N_scope.
 
@@ -100,3 +101,42 @@ Theorem C09_delete_phase : forall w tr t,
     then None else lookup w k.
 Proof. exact delete_phase. Qed.
 Print Assumptions C09_delete_phase.
+
+(* ---- histories of rounds ------------------------------------------------------------------------------------ *)
+(* One round of compare + apply - ANY delete flag, link type, availability (directory objects that fail to load,
+   missing file sources), also when _create_dirs or _chmod_files raises out of apply - maps a prefix-closed
+   workspace (broken links allowed) to a prefix-closed workspace.  Domain: a well-formed target whose root is no
+   file entry and, without delete, no file or broken link of the workspace at the path of an IMPLICIT directory
+   of the target (there os.makedirs raises out of _create_files; outside the model, see ASSUMPTIONS). *)
+Theorem C09_apply_preserves_ws_ok : forall lt delete avail tr order odc w t,
+  ws_ok w -> tgt_ok (fst (expand tr t)) -> t_file (lookup (fst (expand tr t)) []) = false ->
+  (delete = false -> forall q, lookup (fst (expand tr t)) q = None -> has_node (fst (expand tr t)) q = true -> clear_at w q) ->
+  ws_ok (o_ws (checkout lt delete avail tr order odc w t)).
+Proof. exact apply_preserves_ws_ok. Qed.
+Print Assumptions C09_apply_preserves_ws_ok.
+
+(* Convergence from every REACHABLE workspace: after any list of earlier rounds (each with its own target, delete
+   flag, link type and arbitrary availability, [rounds_dom] = each round in the domain above), a final round with
+   delete=True and everything available leaves exactly its target, and a further compare plans nothing
+   ([converged] = the conclusions of C09_converges and C09_fixpoint together). *)
+Theorem C09_history_converges : forall rs w0 lt avail tr order odc t,
+  ws_ok w0 -> rounds_dom rs w0 ->
+  tgt_ok (fst (expand tr t)) -> t_file (lookup (fst (expand tr t)) []) = false -> snd (expand tr t) = [] ->
+  (forall k x c, lookup (fst (expand tr t)) k = Some (TFile x c) -> exists c0, c = Some c0 /\ mem_bytes c0 avail = true) ->
+  converged lt avail tr order odc (run_rounds rs w0) t.
+Proof. exact history_converges. Qed.
+Print Assumptions C09_history_converges.
+
+(* The retry of harness/props/c09.py (model function run_retry, correspondence "retry"): ANY first round on the
+   target t - some directory objects unloadable ([tr1]), some file sources missing ([avail1]), the failure
+   swallowed or not - followed by a round in which everything is available: the second round's result is exactly
+   the target and a third compare plans nothing. *)
+Theorem C09_retry_converges : forall lt1 delete1 avail1 tr1 order1 odc1 w t lt avail tr order odc,
+  ws_ok w ->
+  round_dom {| r_lt := lt1; r_delete := delete1; r_avail := avail1; r_trees := tr1; r_order := order1; r_odc := odc1;
+               r_target := t |} w ->
+  tgt_ok (fst (expand tr t)) -> t_file (lookup (fst (expand tr t)) []) = false -> snd (expand tr t) = [] ->
+  (forall k x c, lookup (fst (expand tr t)) k = Some (TFile x c) -> exists c0, c = Some c0 /\ mem_bytes c0 avail = true) ->
+  converged lt avail tr order odc (o_ws (checkout lt1 delete1 avail1 tr1 order1 odc1 w t)) t.
+Proof. exact retry_converges. Qed.
+Print Assumptions C09_retry_converges.
